@@ -204,3 +204,14 @@ def jsonable(o):
     if isinstance(o, (str, int, bool)) or o is None:
         return o
     return repr(o)
+
+
+def unjson(o):
+    """inverse of jsonable for replay files ({"float": "inf"} -> float)"""
+    if isinstance(o, dict):
+        if set(o.keys()) == {"float"}:
+            return float(o["float"])
+        return {k: unjson(v) for k, v in o.items()}
+    if isinstance(o, list):
+        return [unjson(v) for v in o]
+    return o
